@@ -4,6 +4,7 @@ import (
 	"bytes"
 	"encoding/json"
 	"fmt"
+	"sort"
 	"strings"
 	"time"
 
@@ -131,13 +132,42 @@ func (p c15) chunks(c *fw.Ctx, stmts []string, split []bool) {
 	case f2:
 		c.Violate("chunk-error", "chunks:error", cs, "the script evaluates without error at once but fails when fed in chunks")
 	case o1 != o2:
-		c.Violate("chunk-output", "chunks:output", cs, fmt.Sprintf("at once printed %q, in chunks %q", clip(o1), clip(o2)))
+		sig := "chunks:output"
+		if c15MacroBodyEffect(stmts) && c15SameLines(o1, o2) {
+			// all macros of an input are expanded before any of its statements runs: what a macro BODY prints (not its
+			// template) comes earlier at once than statement by statement; same lines, other order
+			sig = "chunks:output:macro-body-effect-order"
+		}
+		c.Violate("chunk-output", sig, cs, fmt.Sprintf("at once printed %q, in chunks %q", clip(o1), clip(o2)))
 	case g1 != g2:
 		c.Violate("chunk-globals", "chunks:globals", cs, fmt.Sprintf("final globals differ:\nat once   %q\nin chunks %q", clip(g1), clip(g2)))
 	}
 }
 
+// c15MacroBodyEffect tells if a statement defines a macro whose body does something before its quote().
+func c15MacroBodyEffect(stmts []string) bool {
+	for _, st := range stmts {
+		i := strings.Index(st, "macro(")
+		if i < 0 {
+			continue
+		}
+		j := strings.Index(st[i:], "{")
+		if j >= 0 && !strings.HasPrefix(strings.TrimSpace(st[i+j+1:]), "quote(") {
+			return true
+		}
+	}
+	return false
+}
+
+func c15SameLines(a, b string) bool {
+	la, lb := strings.Split(a, "\n"), strings.Split(b, "\n")
+	sort.Strings(la)
+	sort.Strings(lb)
+	return strings.Join(la, "\n") == strings.Join(lb, "\n")
+}
+
 var c15MacroScripts = [][]string{
+	{"mp = macro(x) {println(\"expanding\"); quote(unquote(x))}", "println(\"a\")", "println(mp(1))", "println(\"b\", mp(2))"},
 	{"m1 = macro(x) {quote(unquote(x) + 1)}", "a = m1(2)", "println(a, m1(a))", "func f(y) {m1(y) * 2}", "println(f(3))"},
 	{"unless = macro(c, t, e) {quote(if !(unquote(c)) {unquote(t)} else {unquote(e)})}", "v = unless(1 > 2, \"yes\", \"no\")", "println(v)", "w = unless(true, println(\"not printed\"), 7)"},
 	{"two = macro() {quote(2)}", "x = two() + two()", "for i = two() {println(i, x)}"},
